@@ -301,6 +301,82 @@ func runC14(c *core.Ctx) {
 				}
 			}
 		}
+		// every message taken off the inbox is linked into the list on EVERY path before the loop
+		// selects again or the function returns (a receive that is dropped on some path — e.g. when
+		// the waiting pop's filter does not admit it — is a lost message)
+		isLink := func(in ssa.Instruction) bool {
+			if st, ok := in.(*ssa.Store); ok {
+				if fa, ok := st.Addr.(*ssa.FieldAddr); ok && fieldVar(fa) == headF {
+					return true
+				}
+			}
+			if cv, ok := in.(*ssa.Call); ok {
+				if h := cv.Call.StaticCallee(); h != nil && len(h.Blocks) > 0 && h.Pkg == f.Pkg {
+					// a private helper that stores the head on all of its paths
+					hasStore := false
+					for _, hb := range h.Blocks {
+						for _, hin := range hb.Instrs {
+							if st, ok := hin.(*ssa.Store); ok {
+								if fa, ok := st.Addr.(*ssa.FieldAddr); ok && fieldVar(fa) == headF {
+									hasStore = true
+								}
+							}
+						}
+					}
+					if hasStore && len(h.Blocks) > 0 {
+						first := h.Blocks[0].Instrs[0]
+						return passThrough(first, func(x ssa.Instruction) bool {
+							st, ok := x.(*ssa.Store)
+							if !ok {
+								return false
+							}
+							fa, ok := st.Addr.(*ssa.FieldAddr)
+							return ok && fieldVar(fa) == headF
+						}, nil) != ptNo && !returnsBefore(h, headF)
+					}
+				}
+			}
+			return false
+		}
+		for _, b := range f.Blocks {
+			for _, in := range b.Instrs {
+				sel, ok := in.(*ssa.Select)
+				if !ok {
+					continue
+				}
+				for k, st := range sel.States {
+					if st.Dir != types.RecvOnly || !strings.HasSuffix(a.D.D(st.Chan).String(), ".inbox") {
+						continue
+					}
+					// the block entered when case k was chosen
+					var body *ssa.BasicBlock
+					for _, bb := range f.Blocks {
+						iff, ok := bb.Instrs[len(bb.Instrs)-1].(*ssa.If)
+						if !ok {
+							continue
+						}
+						cmp, ok := iff.Cond.(*ssa.BinOp)
+						if !ok || cmp.Op != token.EQL {
+							continue
+						}
+						ex, ok := cmp.X.(*ssa.Extract)
+						if !ok || ex.Tuple != ssa.Value(sel) || ex.Index != 0 {
+							continue
+						}
+						if cst, ok := cmp.Y.(*ssa.Const); ok && cst.Int64() == int64(k) {
+							body = bb.Succs[0]
+						}
+					}
+					if body == nil {
+						c.Undischarged("C14-R1", m+"|inbox receive case", "could not locate the block of the inbox receive case")
+						continue
+					}
+					linked := passThrough(body.Instrs[0], isLink, b) == ptYes || isLink(body.Instrs[0])
+					c.Decide(linked, "C14-R1", m+"|every received message is linked before the next select / return", c.P.Pos(sel.Pos()), "link on every path",
+						"a message received from the inbox can reach the next select or a return without having been linked into the list: it is taken off the channel and dropped")
+				}
+			}
+		}
 		// list stores in the function and in the private helpers it calls (e.g. an extracted "prepend")
 		for _, ss := range storesWhere(f, func(st *ssa.Store) bool { _, ok := isListStore(st); return ok }) {
 			st := ss.Store
@@ -467,6 +543,42 @@ func checkConsumerFilters(c *core.Ctx) {
 		ok := strings.Contains(v, "func:"+qN+"FilterAny") && strings.Contains(v, "closure:ssv/protocol/v2/ssv/validator.Validator.ConsumeQueue$")
 		c.Decide(ok, "C14-R3", "ConsumeQueue|filter passed to Pop", c.P.Pos(s.Instr.Pos()), clip(v), "unexpected filter passed to Pop: "+clip(v))
 	}
+	// the prioritizer Pop works with is built from the state computed for THIS iteration: the value
+	// handed to NewMessagePrioritizer is the very local whose Height / Round / Quorum /
+	// HasRunningInstance were just set (not the never-updated template it was copied from)
+	{
+		stateBase := map[ssa.Value]map[string]bool{}
+		var prioArgs []ssa.Value
+		for _, b := range cq.Blocks {
+			for _, in := range b.Instrs {
+				switch x := in.(type) {
+				case *ssa.Store:
+					if fa, ok := x.Addr.(*ssa.FieldAddr); ok {
+						if fv := fieldVar(fa); fv != nil {
+							switch fv.Name() {
+							case "Height", "Round", "Quorum", "HasRunningInstance":
+								if stateBase[fa.X] == nil {
+									stateBase[fa.X] = map[string]bool{}
+								}
+								stateBase[fa.X][fv.Name()] = true
+							}
+						}
+					}
+				case *ssa.Call:
+					if callLabel(x.Common()) == qN+"NewMessagePrioritizer" && len(x.Call.Args) == 1 {
+						prioArgs = append(prioArgs, x.Call.Args[0])
+					}
+				}
+			}
+		}
+		c.Decide(len(prioArgs) == 1, "C14-R3", "ConsumeQueue|one prioritizer per pop", c.P.Pos(cq.Pos()), "", fmt.Sprintf("%d NewMessagePrioritizer calls", len(prioArgs)))
+		for _, v := range prioArgs {
+			set := stateBase[v]
+			ok := set["Height"] && set["Round"] && set["Quorum"]
+			c.Decide(ok, "C14-R3", "ConsumeQueue|prioritizer built from the freshly computed state", c.P.Pos(v.Pos()), "Height, Round and Quorum of the prioritizer's state are set in this iteration",
+				"the state handed to NewMessagePrioritizer is not the local whose Height/Round/Quorum are set for this iteration: messages are prioritised against a stale height and round (current-height traffic is no longer preferred)")
+		}
+	}
 	nIdle := 0
 	for _, cl := range cq.AnonFuncs {
 		if cl.Signature.Params().Len() != 1 || cl.Signature.Results().Len() != 1 {
@@ -496,4 +608,23 @@ func checkConsumerFilters(c *core.Ctx) {
 		c.Decide(ok, "C14-R3", "ConsumeQueue|idle filter admits only ExecuteDuty events", c.P.Pos(cl.Pos()), "true ⇒ EventMsg ∧ Type==ExecuteDuty", "the idle filter admits something other than ExecuteDuty events")
 	}
 	c.Min("C14-R3", nIdle, 1, "idle filter closure")
+}
+
+// returnsBefore: some path of h reaches a return without a store to the head field.
+func returnsBefore(h *ssa.Function, headF *types.Var) bool {
+	if len(h.Blocks) == 0 {
+		return true
+	}
+	isStore := func(x ssa.Instruction) bool {
+		st, ok := x.(*ssa.Store)
+		if !ok {
+			return false
+		}
+		fa, ok := st.Addr.(*ssa.FieldAddr)
+		return ok && fieldVar(fa) == headF
+	}
+	if isStore(h.Blocks[0].Instrs[0]) {
+		return false
+	}
+	return passThrough(h.Blocks[0].Instrs[0], isStore, nil) != ptYes
 }
